@@ -25,9 +25,9 @@ Import ListNotations.
 Inductive cop := OpM | OpI | OpD | OpN | OpS | OpH | OpP | OpEQ | OpX.
 Definition cigar := list (cop * nat).
 
-(* The rules found defective by the correspondence check, each switchable to its repair.  Rules 0-3 have been repaired
-   in /repo (fix: commits 8735279, 7e88262, ad24a2d, 064e8b6); `original_rules` keeps the code as it was, for the
-   `_refuted` witness theorems; `current_rules` is the code as it is now.
+(* The rules found defective by the correspondence check, each switchable to its repair.  All five have been repaired
+   in /repo (fix: commits 8735279, 7e88262, ad24a2d, 064e8b6, 9cec2b4); `original_rules` keeps the code as it was, for
+   the `_refuted` witness theorems; `current_rules` is the code as it is now (= repaired_rules).
      r_skip_consumed   cigar_prefix_length at a reference skip (N): false = the code (reports the *requested*
                        number of reference bases), true = repaired (reports the bases actually consumed,
                        like at the end of the read)
@@ -47,7 +47,7 @@ Definition cigar := list (cop * nat).
 Record rules := mkRules { r_skip_consumed : bool; r_ins_left_flank : bool; r_pair_keep_mate : bool;
                           r_ins_span : bool; r_distance : bool }.
 Definition original_rules := mkRules false false false false false.
-Definition current_rules := mkRules true true true true false.
+Definition current_rules := mkRules true true true true true.
 Definition repaired_rules := mkRules true true true true true.
 (* all rules repaired except number k *)
 Definition all_but (k : nat) : rules :=
@@ -807,7 +807,7 @@ Definition realign_correct_with_skips_statement (R : rules) : Prop :=
 Definition detect_noref_never_wrong_statement (R : rules) : Prop :=
   forall (variants : list variant) (start : nat) (cig : cigar) (query quals : list Z) (j a q : nat)
          (v : variant) (carried : nat) (pre V post : list cop) (q1 q2 : list Z),
-  sorted_pos (index_from 0 (map normalized variants)) ->
+  sorted_pos (index_from 0 (map normalized variants)) -> positive_lengths cig ->
   In (j, a, q) (detect_noref R variants start cig query quals) ->
   nth_error (map normalized variants) j = Some v ->
   (snv_shape v \/ pure_indel v) -> vref v <> valt v -> carried <= 1 ->
@@ -827,6 +827,7 @@ Definition detect_noref_only_overlapped_statement (R : rules) : Prop :=
 (* the two primary alignments of a read pair both contribute their alleles *)
 Definition pair_keeps_both_mates_statement (R : rules) : Prop :=
   forall (threshold : Z) (r1 r2 : aligned_read) (x : rvar),
+  (0 <= threshold)%Z -> ar_start r2 <= ar_end r2 ->
   ar_supp r1 = false -> ar_supp r2 = false -> ar_name r1 = ar_name r2 ->
   Z.leb (ar_distance R r2 r1) threshold = true ->
   In x (ar_vars r1) -> (forall y, In y (ar_vars r1 ++ ar_vars r2) -> fst (fst y) = fst (fst x) -> y = x) ->
